@@ -1314,7 +1314,7 @@ class ComplexEmbedding(Operator):
                         (inv_scalar.imag) * ImagPart(self.range))
         else:
             # Complex domain
-            return ComplexEmbedding(self.range, self.scalar.conjugate())
+            return ComplexEmbedding(self.range, 1 / self.scalar)
 
     @property
     def adjoint(self):
